@@ -23,7 +23,7 @@ inductive Cmd where
   | const (text : String)  -- `echo text > $OUT`
   | catn                   -- like cat, but each input is preceded by its name as presented in $SRCS
   | fg                     -- filegroup over one source file: the output IS the source (no command)
-  | opt                    -- like cat; additionally writes `$OUT.extra` (an optional output) iff the result is non-empty
+  | opt                    -- like cat; additionally writes `$OUT.extra` (an optional output) iff the result contains "hello"
   | text (content : String) -- `text_file(content=…)`: no command, the output is the content
 deriving DecidableEq, Repr
 
@@ -74,7 +74,7 @@ def exec (a : Attrs) (ins : List (String × Tree)) : Tree :=
   | .text t => .file t
   | .opt =>
     let c := String.join (ins.map fun p => render p.2)
-    .fileOpt c (if c.isEmpty then none else some c)
+    .fileOpt c (if (c.splitOn "hello").length > 1 then some c else none)
   | .mkdir =>
     match ins with
     | (_, .file c) :: _ => .dir (((c.splitOn "\n").filterMap parseLine).foldl (fun acc e => insertEntry e acc) [])
